@@ -1,7 +1,7 @@
 """C15 - observation and parameter loaders keep rows aligned with the user's tables."""
 from __future__ import annotations
 
-from . import _dg
+from . import _contracts, _dg
 from .c09 import MC_CFG, draws
 
 MC_PROPS = """INVARIANT StoreIsPermutation
@@ -39,7 +39,7 @@ def cases(tier, seed):
 def run(tier, seed):
     mc = [dict(module="Batching", tag="MC_Batching_index", cfg=MC_CFG % (5 if tier == "quick" else 6, "ge", 9, MC_PROPS))]
     return _dg.run(
-        "C15", tier, seed, mc=mc, cfgs=cases(tier, seed),
+        "C15", tier, seed, mc=mc, cfgs=cases(tier, seed), extra_leg=_contracts.leg(("param", "obs"), 0),
         rule="MC: the shuffled index vector obeys Batching; traces: tagged tables (input row i, value 100+i, parameter 200+i) of "
              "1..N rows x every batch size x column counts x 1-D/2-D inputs x flat/column shapes; parameter loaders with every "
              "range/table combination per key (both documented table shapes, table over range); multi-network loaders with and "
